@@ -143,7 +143,7 @@ def run(prop, tier):
         "traces_validated_against_impl": consumed, "samples": samples,
         "programs": len(cases), "families": gstats["families"], "calls_judged": ncalls,
         "calls_rejected_by_validator": nfail, "calls_accepted_by_validator": ncalls - nfail,
-        "known_findings_hit": sorted({k for k, _ in known_hits}), "binding_selftest": neg, "exhaustive": True,
+        "known_findings_hit": sorted({k for k, _ in known_hits}), "binding_selftest": neg, "exhaustive": False, "exhaustively_enumerated_depth": max(dp for _, dp in fams),
         "rule": "every program of each TypeGen family (TLC breadth-first) x type-directed probes x 4 ParseOptions "
                 "combinations; a case is one (program, value, options) call judged by Trace_Parse.tla",
     }
